@@ -108,7 +108,7 @@ def quantifier(self, n, env):
 
 def call_value(self: Exec, f, args, kwargs, node=None):
   if any(isinstance(a, tuple) and not isinstance(a, PyTuple) and a and a[0] == '*' for a in args):
-    if not isinstance(f, (Handler,)):
+    if not isinstance(f, (Handler,)) and not (isinstance(f, SV) and getattr(f.sort, 'call_hook', None)):
       raise OutsideSubset('call with *args of symbolic length')
   if isinstance(f, Closure):
     return call_closure(self, f, args, kwargs)
